@@ -127,10 +127,17 @@ def ev(e, env):
             return _u(lambda x: not x, v)
         return v
     if isinstance(e, ast.BoolOp):
-        vs = [ev(v, env) for v in e.values]
-        if any(isinstance(v, list) for v in vs):
-            raise Unknown("truth value of an array")
-        return all(vs) if isinstance(e.op, ast.And) else any(vs)
+        # python's short-circuit evaluation (x is None or x > 3)
+        last = None
+        for v_ in e.values:
+            last = ev(v_, env)
+            if isinstance(last, list):
+                raise Unknown("truth value of an array")
+            if isinstance(e.op, ast.And) and not last:
+                return last
+            if isinstance(e.op, ast.Or) and last:
+                return last
+        return last
     if isinstance(e, ast.BinOp) and type(e.op) in BIN:
         return _ew(BIN[type(e.op)], ev(e.left, env), ev(e.right, env))
     if isinstance(e, ast.Compare):
@@ -193,6 +200,10 @@ def ev(e, env):
             return _u(UNARY[short], args[0])
         if short in ("maximum", "minimum") and len(args) == 2:
             return _ew(max if short == "maximum" else min, *args)
+        if short in ("max", "min") and len(args) >= 2 and \
+                isinstance(e.func, ast.Name) and \
+                not any(isinstance(a, list) for a in args):
+            return (max if short == "max" else min)(args)
         if short in ("where", "nonzero") and len(args) == 1 and \
                 isinstance(args[0], list):
             return [[i for i, v in enumerate(args[0]) if v]]
